@@ -74,6 +74,49 @@ for f in sorted(glob.glob(os.path.join(V, 'design', 'planned-fixes', 'F*.patch')
 for (mid, pid, file, pat, rep, what) in SED:
     entries.append({'id': mid, 'property': pid, 'kind': 'sed', 'file': file, 'pattern': pat, 'replacement': rep, 'what': what})
 
+def _par(e):
+    # parallel mode (--jobs=N): the scratch copies and cached facts of tools/regress.py are used (same edit => same tree hash)
+    import multiprocessing as mp
+    sys.path.insert(0, os.path.join(V, 'tools'))
+    import regress as R
+    os.environ['DESFACTS_SLOT'] = str(mp.current_process()._identity[0])
+    eid = e['id'][5:] if e['id'].startswith('seed-') else e['id']
+    spec = {'path': os.path.join(V, e['path'])} if e['kind'] in ('patch', 'rpatch') else {'file': e['file'], 'pattern': e['pattern'], 'replacement': e['replacement']}
+    d = R.scratch(eid, e['kind'], spec)
+    if d is None:
+        e['status'] = 'does-not-apply'
+        return e
+    try:
+        R.get_facts(d, 'A')
+    except ExtractError:
+        e['status'] = 'does-not-compile'
+        return e
+    os.environ.pop('DESFACTS_SLOT', None)
+    keys = R.keys_for(d, e['property'])
+    if keys is None:
+        e['status'] = 'does-not-compile'
+        return e
+    e['status'] = 'fires' if keys else 'SILENT'
+    e['expect_rules'] = sorted({k.split(':')[0] for k in keys})
+    e['observed_keys'] = keys[:6]
+    return e
+
+
+_jobs = next((int(a.split('=')[1]) for a in sys.argv[1:] if a.startswith('--jobs=')), 1)
+if _jobs > 1:
+    import multiprocessing as mp
+    os.environ.setdefault('DESFACTS_CACHE_MAX', '1300')
+    order = {e['id']: i for i, e in enumerate(entries)}
+    out = []
+    with mp.Pool(_jobs) as pool:
+        for e in pool.imap_unordered(_par, entries):
+            print(e['id'], e['status'], e.get('expect_rules'), flush=True)
+            out.append(e)
+    out.sort(key=lambda e: order[e['id']])
+    json.dump(out, open(os.path.join(V, 'selftest', 'index.json'), 'w'), indent=1)
+    print('entries', len(out), 'fires', sum(1 for e in out if e.get('status') == 'fires'))
+    sys.exit(0)
+
 out = []
 for e in entries:
     S = scratch()
